@@ -7,7 +7,8 @@ from . import common as C, lin, c16
 
 PROP = "C14"
 WIDEN_MAX = 150          # extra thorough-generator cases when the anchored sources have drifted (harness/drift.py)
-PROPS_FILE = "props/C14.v"
+PROPS_FILE = ["props/C14.v", "props/GI4.v"]
+TRUSTED_EXTRA = ["props/GI4.v (entropy, KL, expected log-densities and the expected exp noise as iterated improper Riemann integrals, at Coq's real numbers: stdlib Reals + Coquelicot + base/RField.v) depends on the standard-library axioms ClassicalDedekindReals.sig_not_dec, sig_forall_dec, FunctionalExtensionality.functional_extensionality_dep, Classical_Prop.classic, Epsilon.epsilon_statement"]
 RULE = ("cases = integrate('log u(x)', factor=f) for every factor kind (general, rank-one, linear, constant, measure, density) with "
         "factor batch 1 or R, measures and densities with R in 1..3, D in 1..4; integrate_log_conditional(q) for the five "
         "linear conditional classes with an arbitrary Gaussian q over (y,x) (not the model's own joint), R_q in 1..3; "
